@@ -432,3 +432,20 @@ func newOut(params rlwe.Parameters, level, degree int, dirty bool, rng *h.SplitM
 	}
 	return ct
 }
+
+func minInt(a, b int) int {
+	if a < b {
+		return a
+	}
+	return b
+}
+
+// smallMul returns the exact integer product of two polynomials with small coefficients (|result| < 2^60), computed
+// modulo the Mersenne prime 2^61-1 and centred.
+func smallMul(a, b []*big.Int, ci bool) []*big.Int {
+	const m61 = uint64(1)<<61 - 1
+	if len(a) <= 32 {
+		return ringMul(a, b, ci)
+	}
+	return h.VecCenter(mulQ(a, b, []uint64{m61}, ci), h.BU(m61))
+}
